@@ -774,6 +774,9 @@ class Peer:
                     await update_handler.handle_async(ctx, message)
                 elif route_refresh_handler.can_handle(message):
                     await route_refresh_handler.handle_async(ctx, message)
+                elif message.TYPE == Open.TYPE:
+                    # RFC 6608 section 4: an OPEN is not expected once the session is established (it was ignored)
+                    raise Notify(5, 3)
 
                 # Send outbound messages using async helpers
                 await self._send_operational_messages()
